@@ -5,6 +5,7 @@
    fuel and an out-of-fuel flag: it cannot be made to terminate by construction.
    Tied to the code by K-macro on self-feeding machines at / below / above maxIterations (harness/props/c13.py). *)
 From XSM Require Import Model.Macro Proofs.FrameP Proofs.QueueP.
+From XSM Require Import Model.TreeLib Gen.GenGeom Proofs.SettleBridge.
 
 (* one drain (one send() / send_events() / the drain at start) begins at most maxIterations events *)
 Theorem C13_drain_bounded : forall n eng m s,
@@ -54,6 +55,22 @@ Proof. vm_compute. reflexivity. Qed.
 Print Assumptions C13_async_fanout_refuted.
 
 (* the sync engine does cut the same storm *)
+(* TIE T for the settle loop: the loop of _process_transient_transitions (sync engine) and _settle_transient_transitions
+   (asyncio engine) has its SHAPE checked on every run (count a microstep; cut when the counter exceeds maxIterations; select for
+   the empty event type; go on while something eventless is selected) and its two TESTS re-translated from the current source
+   (Gen/GenGeom.v).  That loop, on explicit fuel around the model's select / process_event (`settle_src`), IS the model's `settle`,
+   which recurses on the code's own counter - the bound theorems above are about the loop as the source writes it *)
+Theorem C13_settle_loop_is_the_source_sync : forall eng pr m s,
+  settle_src GenGeom.settle_cut_sync GenGeom.settle_goes_on_sync (S (m_max_iter m)) 0 (m_max_iter m) eng pr m s
+  = settle (m_max_iter m) eng pr m s.
+Proof. exact settle_sync_bridge. Qed.
+Print Assumptions C13_settle_loop_is_the_source_sync.
+Theorem C13_settle_loop_is_the_source_async : forall eng pr m s,
+  settle_src GenGeom.settle_cut_async GenGeom.settle_goes_on_async (S (m_max_iter m)) 0 (m_max_iter m) eng pr m s
+  = settle (m_max_iter m) eng pr m s.
+Proof. exact settle_async_bridge. Qed.
+Print Assumptions C13_settle_loop_is_the_source_async.
+
 Example C13_sync_storm_is_cut :
   let s0 := fst (sync_start storm (st_init [])) in
   s_queue (fst (sync_send storm (Build_event "GO" EPlain 1) s0)) = [] /\
